@@ -408,8 +408,8 @@ def rawAppend (c : Cfg) (h : Heap) (i n : Nat) (bytes : Bytes) : Out (Heap × Ra
         .ok ((h1.setBlob v.blob { b with data := b.data.take (v.off + v.len) ++ bytes }).setView i { v with len := v.len + k }, .done)
       else .ub
 
-/-- SBuf::vappendf, with vsnprintf abstracted to its output `out` (NUL-free) for a format of `fmtLen` characters.
-    `arg`: where the only pointer argument points when it points into a blob (read while formatting). -/
+/-- SBuf::vappendf, with vsnprintf abstracted to its output (NUL-free) for a format of `fmtLen` characters.
+    `out h` is that output when the pointer arguments are read in state `h` (they may point into a blob). -/
 def vappendf (c : Cfg) (h : Heap) (i fmtLen : Nat) (out : Heap → Option Bytes) : Out Heap :=
   let v0 := h.view i
   -- const Locker blobKeeper(this, buf())
@@ -418,29 +418,26 @@ def vappendf (c : Cfg) (h : Heap) (i fmtLen : Nat) (out : Heap → Option Bytes)
     match out h1 with
     | none => .ub
     | some o =>
-      let sz := o.length
-      let space := (h1.blob (h1.view i).blob).spaceSize
-      -- first vsnprintf(space, spaceSize(), ...): writes min(sz, spaceSize()-1) characters and a NUL at bufEnd()
-      let h1' : Heap :=
-        let v := h1.view i
-        let b := h1.blob v.blob
-        if space > 0 ∧ v.off + v.len < b.size then
-          -- the area is not the free tail: the written characters land on bytes in use
-          let w := (o.take (space - 1)) ++ [0]
-          h1.setBlob v.blob { b with data := (b.data.take (v.off + v.len)) ++ (w.take (b.size - (v.off + v.len))) ++ (b.data.drop (v.off + v.len + w.length)) }
-        else h1
-      let h2 ← if sz ≥ space then rawSpace c h1' i ((sz * 2) % W) else .ok h1'
-      match out h2 with
-      | none => .ub
-      | some o2 =>
-        let v := h2.view i
-        let b := h2.blob v.blob
-        if v.off + v.len = b.size then
-          if o2.length < b.spaceSize ∨ (o2.length = 0) then
-            .ok ((h2.setBlob v.blob { b with data := b.data ++ o2 }).setView i { v with len := v.len + o2.length })
+      let v := h1.view i
+      let b := h1.blob v.blob
+      if v.off + v.len = b.size then
+        -- `space` is the free tail: vsnprintf(space, spaceSize(), ...) touches nothing in use
+        let h2 ← if o.length ≥ b.spaceSize then rawSpace c h1 i ((o.length * 2) % W) else .ok h1
+        match out h2 with
+        | none => .ub
+        | some o2 =>
+          let v2 := h2.view i
+          let b2 := h2.blob v2.blob
+          if v2.off + v2.len = b2.size ∧ (o2.length < b2.spaceSize ∨ o2.length = 0) then
+            -- len_ += sz; store_->size += sz
+            .ok ((h2.setBlob v2.blob { b2 with data := b2.data ++ o2 }).setView i { v2 with len := v2.len + o2.length })
           else .ub
-        else if o2.length = 0 then .ok h2      -- len_ += 0; store_->size += 0
-        else .ub
+      else if v.off + v.len < b.size ∧ o.length = 0 then
+        -- rawSpace(0) answered bufEnd() although it is not the free tail (only an empty format gets here):
+        -- vsnprintf(space, spaceSize(), "") stores its terminator at bufEnd() when spaceSize() > 0
+        if b.spaceSize > 0 then .ok (h1.setBlob v.blob { b with data := b.data.set (v.off + v.len) 0 })
+        else .ok h1
+      else .ub
 
 /-- SBuf::Printf -/
 def printfTo (c : Cfg) (h : Heap) (i fmtLen : Nat) (out : Heap → Option Bytes) : Out Heap :=
